@@ -86,7 +86,23 @@ func (s *State) get(h string) string {
 		panic(fmt.Sprint("bad state kind ", s.kind))
 	}
 	s.m[h] = v
+	if h != "$nextref" && (s.kind == stRoot || s.kind == stLoop || s.kind == stHavoc || (s.kind == stMerge && len(v) > 0 && v[len(v)-1] == '|' && !s.allSame(h))) {
+		s.f.closednessAxiom(h, v, s.get("$nextref"))
+	}
 	return v
+}
+
+func (s *State) allSame(h string) bool {
+	var first string
+	for i, p := range s.preds {
+		t := p.get(h)
+		if i == 0 {
+			first = t
+		} else if t != first {
+			return false
+		}
+	}
+	return true
 }
 
 // projGet: the backing array of slice value sl in element heap h. Inside the definition of a recursive spec
